@@ -6,36 +6,36 @@ const commonQuick = "all integers, lengths and head arguments are symbolic 64-bi
 const commonThorough = "as quick, with the wider shape bounds below; per-query solver timeout 300 s; per-harness budget 10 min, path cap 3,000,000. "
 
 var propBounds = map[string]map[string]string{
-	"C01": {"quick": commonQuick + "7 algorithms x {Sign1 tagged/untagged/detached, Sign with 1-2 signers, countersignatures over 4 parent kinds ptr/value constructed/decoded, Countersign0, hash envelope, keys from COSE_Key}; one message dimension varied at a time; header maps <= 2 entries; payload/external length 0..2^31-1.",
+	"C01": {"quick": commonQuick + "7 algorithms x {Sign1 tagged/untagged/detached, Sign with 1-2 signers, countersignatures over 4 parent kinds ptr/value constructed/decoded, Countersign0, hash envelope, keys from COSE_Key, native and opaque (wrapped crypto.Signer) keys, 1-4 countersignatures attached to a COSE_Sign1 or to a signer inside a COSE_Sign and sent over the wire}; one message dimension varied at a time; header maps <= 2 entries; payload/external length 0..2^31-1.",
 		"thorough": commonThorough + "full product of the message dimensions."},
-	"C02": {"quick": commonQuick + "COSE_Sign1 constructed (protected <= 2, unprotected <= 1 benign entries, first value a byte string of any length) and decoded (protected h''/h'a0'/map <= 2 entries, every head width symbolic); payload/external/signature lengths 0..2^31-1; tagged and untagged."},
-	"C03": {"quick": commonQuick + "decoded Sign1 / Sign (1 signer) / countersignature (full + abbreviated) x 7 verifier algorithms x keys on 3 curves; alg matching / arbitrary other / absent; signature length 1..600; one dimension varied at a time.",
+	"C02": {"quick": commonQuick + "COSE_Sign1 constructed (protected <= 2, unprotected <= 1 benign entries, first value a byte string of any length) and decoded (protected h''/h'a0'/map <= 2 entries, every head width symbolic); payload/external/signature lengths 0..2^31-1; tagged and untagged; zero / empty / populated header maps; a decoded COSE_Sign1 verified twice."},
+	"C03": {"quick": commonQuick + "decoded Sign1 / Sign (1 signer) / countersignature (full + abbreviated) x 7 verifier algorithms x keys on 3 curves; alg matching / arbitrary other / absent; signature length 1..600; genuine signatures re-spelt (7 forms), transplanted (6 edits), offered as the other countersignature form, and under arbitrary edits of the unprotected bucket (incl. an alg parameter); tagged values inside protected headers; IV / Partial IV split between raw unprotected bytes and the parsed protected map, a parsed Unprotected map next to RawUnprotected; one dimension varied at a time.",
 		"thorough": commonThorough + "full product."},
-	"C04": {"quick": commonQuick + "Sign1 / Signature / Countersignature x constructed (alg label in 10 Go spellings, 14 value kinds + absent, protected map nil/non-nil) and decoded (alg as any integer / tstr / bstr / absent, optional extra entry); external nil/empty/non-empty; signer/verifier alg one symbolic int64."},
-	"C05": {"quick": commonQuick + "conforming skeleton + 1 of 11 header features per layer + <= 1 fault position (every key/value/wrapper/arity/head/tag/trailing) replaced by an arbitrary item of depth <= 2; COSE_Sign with 1-2 signatures; countersignature nesting <= 2.",
+	"C04": {"quick": commonQuick + "Sign1 / Signature / Countersignature x constructed (alg label in 10 Go spellings, 14 value kinds + absent, protected map nil/non-nil) and decoded (alg as any integer / tstr / bstr / absent, optional extra entry); external nil/empty/non-empty; signer/verifier alg one symbolic int64; the one-call helpers Sign1 / Sign1Untagged / SignHashEnvelope (raw protected bytes naming any algorithm); a Headers value parsed twice."},
+	"C05": {"quick": commonQuick + "conforming skeleton + 1 of 14 header features (incl. IV / Partial IV split over the two buckets, also in a nested countersignature) per layer + <= 1 fault position (every key/value/wrapper/arity/head/tag/trailing) replaced by an arbitrary item of depth <= 2; COSE_Sign with 1-2 signatures; countersignature nesting <= 2.",
 		"thorough": commonThorough + "<= 2 simultaneous fault positions, richer arbitrary items."},
-	"C06": {"quick": commonQuick + "as C05 (<= 1 fault) for the message decoders with 5 features; COSE_Key skeletons (EC2 x3, OKP, Symmetric) with one varied dimension or one faulted label/value; unstructured buffers with 7 plausible prefixes; follow-up operations on every accepted value.",
+	"C06": {"quick": commonQuick + "as C05 (<= 1 fault) for the message decoders with 5 features; COSE_Key skeletons (EC2 x3, OKP, Symmetric) with one varied dimension or one faulted label/value; hash-envelope parameters 258/259/260 in every spelling with each value a fault position; key coordinates of any length 0..70 (OKP: curve and length varied together); unstructured buffers with 7 plausible prefixes; follow-up operations on every accepted value.",
 		"thorough": commonThorough + "<= 2 faults, all 11 features, free-form key maps of 2 arbitrary pairs."},
 	"C07": {"quick": commonQuick + "conforming Sign1 / Sign (1-2 signers) / countersignature (single, list) in arbitrary encodings, signed by the reference implementation with ES256/384/512, EdDSA, PS256; one dimension varied at a time.",
 		"thorough": commonThorough + "full product."},
-	"C08": {"quick": commonQuick + "header maps of 1-2 entries (5 label spellings, 2 value kinds), nested container values, messages of 5 types with countersignature values, 3 Sign helpers, keys of 3 kinds; 3 global map-iteration schedules.",
+	"C08": {"quick": commonQuick + "header maps of 1-2 entries (5 label spellings, 2 value kinds), nested container values, messages of 5 types with countersignature values, 3 Sign helpers, keys of 3 kinds incl. one label under two Go keys; countersignature lists of 1 and 3; decoded values compared with the encoded ones; the second encoding runs under the next of 3 map-iteration schedules.",
 		"thorough": commonThorough + "3 entries per map; every range statement picks its own permutation."},
-	"C09": {"quick": commonQuick + "Sign1 (tagged/untagged/detached), Sign (1-2 signers, feature in body or either signer), Signature, Countersignature; 11 header features; all head widths symbolic; one decode/encode step from an arbitrary accepted message (covers any number of cycles)."},
-	"C10": {"quick": commonQuick + "4 parent kinds x ptr/value x full/abbreviated, constructed parents (<= 1 entry per bucket, payload/signature any length) and decoded Sign1 / Signature parents in arbitrary encodings; 9 refusal cases."},
-	"C11": {"quick": commonQuick + "n = 0..4 signatures, m in {n-1,n,n+1} verifiers/signers, every signature length 0..100, symbolic algorithm ids, symbolic failure flags.",
+	"C09": {"quick": commonQuick + "Sign1 (tagged/untagged/detached), Sign (1-2 signers, feature in body or either signer), Signature, Countersignature; 11 header features; all head widths symbolic; one decode/encode step from an arbitrary accepted message (covers any number of cycles), optionally with an unrelated message decoded in between; VerifyHashEnvelope as decoder."},
+	"C10": {"quick": commonQuick + "4 parent kinds x ptr/value x full/abbreviated, constructed parents (<= 1 entry per bucket, payload/signature any length) and decoded Sign1 / Signature parents in arbitrary encodings; 9 refusal cases; parents whose unprotected bucket is arbitrary (also unencodable)."},
+	"C11": {"quick": commonQuick + "n = 0..4 signatures, m in {n-1,n,n+1} verifiers/signers, every signature length 0..100, symbolic algorithm ids, symbolic failure flags, failing verifiers returning a private error or ErrVerification, a second Verify call with one rejecting verifier, slots holding no COSE_Signature at all (nil / null / undefined), a decoded pair of signers with equal header maps in different spellings.",
 		"thorough": commonThorough + "n = 0..6."},
 	"C12": {"quick": commonQuick + "base headers with governed / unrelated labels in 3 Go spellings and 3 value kinds, nil/empty maps, raw protected / raw unprotected buckets, hash algorithm symbolic int64, hash length 0..100, content type of 5 kinds, location; verify side: 1-2 governed labels in either bucket with 5 node kinds; one dimension varied at a time.",
 		"thorough": commonThorough + "full product."},
-	"C13": {"quick": commonQuick + "single entry: 12 Go label spellings x 15 Go value kinds, 4 wire label kinds x 13 wire value kinds, x 2 buckets; pairs: integer labels focused on {2,4,5,6,7,other}, 3 spellings, both iteration orders; IV/PIV across buckets.",
+	"C13": {"quick": commonQuick + "single entry: 12 Go label spellings x 16 Go value kinds (incl. a nil byte slice) + 3 other Go carriers (cbor.RawMessage, named byte slice, byte array), 4 wire label kinds x 13 wire value kinds, x 2 buckets; pairs: integer labels focused on {2,4,5,6,7,other}, 3 spellings, both iteration orders; IV/PIV across buckets in 7 structures.",
 		"thorough": commonThorough + "pairs with all label spellings and unconstrained label values."},
-	"C14": {"quick": commonQuick + "X, Y, D as 256/384/528-bit vectors on P-256/384/521 (all leading-zero patterns), Ed25519 keys; optional kid / ops / base IV / extra parameter."},
-	"C15": {"quick": commonQuick + "key skeletons EC2 x3 / OKP / Symmetric with one varied dimension (odd coordinate length among 8 values, arbitrary curve) or one faulted label/value; key_ops absent / empty / 1-3 entries (ints 0..10 or names)."},
-	"C16": {"quick": commonQuick + "(r,s) as 528/600-bit vectors (signed for the ASN.1 path) on 3 curves; verifier inputs of length 0..140; genuine signatures in 6 alternative forms."},
-	"C17": {"quick": commonQuick + "algorithm id one symbolic int64; RSA modulus size 2..8192 bits; ECDSA keys on P-224/256/384/521 with uninterpreted on-curve flag; Ed25519; foreign crypto.Signer with 3 public key kinds."},
-	"C18": {"quick": commonQuick + "4 message kinds x constructed/decoded x 4 header features; built-in objects of 3 families; key skeletons."},
-	"C19": {"quick": commonQuick + "destination holding a previously decoded message; input as C05 (<= 1 fault, 5 features); 7 decoders.",
+	"C14": {"quick": commonQuick + "X, Y, D as 256/384/528-bit vectors on P-256/384/521 (all leading-zero patterns), Ed25519 keys; optional kid / ops / base IV / extra parameter; key_ops on either half; batch decode through one reused Key variable; genuine key pairs (d*G = (x, y) as an uninterpreted function)."},
+	"C15": {"quick": commonQuick + "key skeletons EC2 x3 / OKP / Symmetric with one varied dimension (odd coordinate length among 8 values, arbitrary curve) or one faulted label/value; key_ops absent / empty / 1-3 entries (ints 0..10 or names); fresh or used destination (holding a decoded private key with key_ops); EC2 keys from genuine pairs in the gates harness."},
+	"C16": {"quick": commonQuick + "(r,s) as 528/600-bit vectors (signed for the ASN.1 path) on 3 curves; verifier inputs of length 0..140; genuine signatures in 7 alternative forms through Verify and VerifyDigest; native keys through the public API (any ES algorithm x any curve); exact DER lengths for foreign crypto.Signers."},
+	"C17": {"quick": commonQuick + "algorithm id one symbolic int64; RSA modulus size 2..8192 bits; ECDSA keys on P-224/256/384/521 with uninterpreted on-curve flag; Ed25519; foreign crypto.Signer with 3 public key kinds; a wrapping foreign signer that records the digest it is handed; signing may fail only when the primitive fails."},
+	"C18": {"quick": commonQuick + "4 message kinds x constructed/decoded x 4 header features; built-in objects of 3 families signing two distinct messages (run as goroutines on one P natively); key skeletons with coordinates of any length; sync.Pool model (use after Put)."},
+	"C19": {"quick": commonQuick + "destination holding a previously decoded message; input as C05 (<= 1 fault, 5 features); 7 decoders; 6 header features incl. the IV split.",
 		"thorough": commonThorough + "used / fresh destination, 3 previous shapes, <= 2 faults."},
-	"C20": {"quick": commonQuick + "each signer outcome in {ok, ok-but-empty, error with garbage bytes}; each verifier outcome in {ok, error}; 7 harnesses over Sign1, Sign1Untagged, Sign1Message.Sign, Countersignature.Sign, Countersign0, SignHashEnvelope, 6 Verify forms, built-in signers over a failing crypto.Signer, 5 encoders on empty signatures. Multi-signer fault vectors: C11."},
+	"C20": {"quick": commonQuick + "each signer outcome in {ok, ok-but-empty, error with garbage bytes}; each verifier outcome in {ok, error}; 7 harnesses over Sign1, Sign1Untagged, Sign1Message.Sign, Countersignature.Sign, Countersign0, SignHashEnvelope, 6 Verify forms, built-in signers over a failing crypto.Signer, 5 encoders on empty signatures, built-in signers over a key that reports success with an empty result; COSE_Sign with two signers and the failing verifier at either position; failing verifiers returning ErrVerification. Multi-signer fault vectors: C11."},
 }
 
 var propAssumptions = map[string][]string{}
